@@ -325,25 +325,26 @@ theorem modifyAt_map_key {α β : Type} (key : α → β) (g : α → α) (hk : 
   | a :: as, 0 => by simp [modifyAt, hk]
   | a :: as, n + 1 => by simp [modifyAt, modifyAt_map_key key g hk as n]
 
-theorem retPass_keys (env : Env) : ∀ (bodies : List Block) (i : Nat) (sigs : List FnSig) (ch : Bool),
-    (retPass env bodies i sigs ch).1.map sigKey = sigs.map sigKey
+theorem retPass_keys (env : Env) (makes : List Bytes) :
+    ∀ (bodies : List (List Param × Block)) (i : Nat) (sigs : List FnSig) (ch : Bool),
+    (retPass env makes bodies i sigs ch).1.map sigKey = sigs.map sigKey
   | [], _, _, _ => by simp [retPass]
-  | body :: bs, i, sigs, ch => by
+  | (ps, body) :: bs, i, sigs, ch => by
       simp only [retPass]
       split
       · split
-        · exact retPass_keys env bs _ _ _
-        · rw [retPass_keys env bs]
+        · exact retPass_keys env makes bs _ _ _
+        · rw [retPass_keys env makes bs]
           apply modifyAt_map_key; intro a; rfl
-      · exact retPass_keys env bs _ _ _
+      · exact retPass_keys env makes bs _ _ _
 
-theorem retIter_keys (env : Env) (bodies : List Block) : ∀ (n : Nat) (sigs : List FnSig),
-    (retIter env bodies n sigs).map sigKey = sigs.map sigKey
+theorem retIter_keys (env : Env) (makes : List Bytes) (bodies : List (List Param × Block)) :
+    ∀ (n : Nat) (sigs : List FnSig), (retIter env makes bodies n sigs).map sigKey = sigs.map sigKey
   | 0, _ => by simp [retIter]
   | n + 1, sigs => by
       simp only [retIter]
       split
-      · rw [retIter_keys env bodies n, retPass_keys]
+      · rw [retIter_keys env makes bodies n, retPass_keys]
       · rw [retPass_keys]
 
 /-! ### Statements and blocks -/
